@@ -767,4 +767,261 @@ theorem spanP_noColon {t : Str} (h : 58 ∉ t) : (spanP (· != 58) t).1 = t ∧ 
   apply List.filter_eq_self.2
   exact ne_of_not_mem h
 
+/-! ## "documented resolvable form" of one alternative (C09 deferred validation) -/
+
+/-- alternative `a` of a mass string is of a documented resolvable form -/
+def massForm (T : Tables) (a : Str) : Bool :=
+  if a.contains 35 && startsWith a [35] then true
+  else
+    let m := if a.contains 35 then beforeHash a else a
+    match convertType m with
+    | .num _ => true
+    | .special => true
+    | .str =>
+      let lw := lower m
+      startsWith lw (str% "glycan:") || hasPrefix pGno m || hasPrefix pXlmod m || hasPrefix pResid m ||
+        (!startsWith lw (str% "info:") &&
+          (isDbStr pPsi T.psimod m || isDbStr pUnimod T.unimod m || startsWith lw (str% "formula:") ||
+            startsWith lw (str% "obs:")))
+
+/-- alternative `a` of a composition string is of a documented resolvable form (numbers, `obs:` and `info:` are not;
+`convert_type` is applied before the `#` cut) -/
+def compForm (T : Tables) (a : Str) : Bool :=
+  match convertType a with
+  | .num _ => false
+  | .special => false
+  | .str =>
+    if a.contains 35 && startsWith a [35] then true
+    else
+      let m := if a.contains 35 then beforeHash a else a
+      let lw := lower m
+      startsWith lw (str% "glycan:") || hasPrefix pGno m || hasPrefix pXlmod m || hasPrefix pResid m ||
+        (!startsWith lw (str% "info:") && !startsWith lw (str% "obs:") &&
+          (isDbStr pPsi T.psimod m || isDbStr pUnimod T.unimod m || startsWith lw (str% "formula:")))
+
+theorem massStrBody_not_form (T : Tables) (m : Str) (mono : Bool)
+    (h : (startsWith (lower m) (str% "glycan:") || hasPrefix pGno m || hasPrefix pXlmod m || hasPrefix pResid m ||
+        (!startsWith (lower m) (str% "info:") &&
+          (isDbStr pPsi T.psimod m || isDbStr pUnimod T.unimod m || startsWith (lower m) (str% "formula:") ||
+            startsWith (lower m) (str% "obs:")))) = false) :
+    massStrBody T m mono = .ok none := by
+  simp only [Bool.or_eq_false_iff, Bool.and_eq_false_iff, Bool.not_eq_false'] at h
+  obtain ⟨⟨⟨⟨h1, h2⟩, h3⟩, h4⟩, h5⟩ := h
+  simp only [massStrBody, h1, h2, h3, h4, Bool.false_eq_true, if_false]
+  rcases h5 with h5 | ⟨⟨⟨h6, h7⟩, h8⟩, h9⟩
+  · simp [h5]
+  · simp [h6, h7, h8, h9]
+
+theorem parseModMass_not_form' (T : Tables) (a : Str) (mono : Bool) (h : massForm T a = false) :
+    parseModMass T a mono = .ok none := by
+  rw [parseModMass_eq]
+  unfold massForm at h
+  split at h
+  · cases h
+  · rename_i hc
+    rw [if_neg hc]
+    simp only at h
+    unfold massBody
+    split at h
+    · cases h
+    · cases h
+    · rename_i hs
+      rw [hs]
+      exact massStrBody_not_form T _ mono h
+
+theorem compStrBody_not_form (T : Tables) (m : Str)
+    (h : (startsWith (lower m) (str% "glycan:") || hasPrefix pGno m || hasPrefix pXlmod m || hasPrefix pResid m ||
+        (!startsWith (lower m) (str% "info:") && !startsWith (lower m) (str% "obs:") &&
+          (isDbStr pPsi T.psimod m || isDbStr pUnimod T.unimod m || startsWith (lower m) (str% "formula:")))) = false) :
+    compStrBody T m = .ok none := by
+  simp only [Bool.or_eq_false_iff, Bool.and_eq_false_iff, Bool.not_eq_false'] at h
+  obtain ⟨⟨⟨⟨h1, h2⟩, h3⟩, h4⟩, h5⟩ := h
+  simp only [compStrBody, h1, h2, h3, h4, Bool.false_eq_true, if_false]
+  rcases h5 with (h5 | h5) | ⟨⟨h6, h7⟩, h8⟩
+  · simp [h5]
+  · by_cases hi : startsWith (lower m) (str% "info:") = true <;> simp [h5, hi]
+  · by_cases hi : startsWith (lower m) (str% "info:") = true <;>
+    by_cases ho : startsWith (lower m) (str% "obs:") = true <;> simp [hi, ho, h6, h7, h8]
+
+theorem parseModComp_not_form' (T : Tables) (a : Str) (h : compForm T a = false) :
+    parseModComp T a = .ok none := by
+  rw [parseModComp_eq]
+  unfold compForm at h
+  split at h
+  · rename_i hs; rw [hs]
+  · rename_i hs; rw [hs]
+  · rename_i hs
+    rw [hs]
+    simp only
+    split at h
+    · cases h
+    · rename_i hc
+      rw [if_neg hc]
+      exact compStrBody_not_form T _ h
+
+theorem firstMass_ok (T : Tables) (mono : Bool) (x : Mass) : ∀ l : List Str,
+    firstMass T mono l = .ok x → ∃ a ∈ l, parseModMass T a mono = .ok (some x) := by
+  intro l
+  induction l with
+  | nil => intro h; cases h
+  | cons a r ih =>
+    intro h
+    simp only [firstMass] at h
+    cases hp : parseModMass T a mono with
+    | error e => rw [hp] at h; cases h
+    | ok o =>
+      rw [hp] at h
+      cases o with
+      | some m =>
+        simp only [Except.ok.injEq] at h
+        subst h
+        exact ⟨a, by simp, hp⟩
+      | none =>
+        obtain ⟨b, hb, hb'⟩ := ih h
+        exact ⟨b, by simp [hb], hb'⟩
+
+theorem firstMass_all_none (T : Tables) (mono : Bool) : ∀ l : List Str,
+    (∀ a ∈ l, parseModMass T a mono = .ok none) → firstMass T mono l = .error .invalidModMass := by
+  intro l
+  induction l with
+  | nil => intro _; rfl
+  | cons a r ih =>
+    intro h
+    simp only [firstMass, h a (by simp)]
+    exact ih (fun b hb => h b (by simp [hb]))
+
+theorem firstComp_ok (T : Tables) (x : Comp) : ∀ l : List Str,
+    firstComp T l = .ok x → ∃ a ∈ l, parseModComp T a = .ok (some x) := by
+  intro l
+  induction l with
+  | nil => intro h; cases h
+  | cons a r ih =>
+    intro h
+    simp only [firstComp] at h
+    cases hp : parseModComp T a with
+    | error e => rw [hp] at h; cases h
+    | ok o =>
+      rw [hp] at h
+      cases o with
+      | some m =>
+        simp only [Except.ok.injEq] at h
+        subst h
+        exact ⟨a, by simp, hp⟩
+      | none =>
+        obtain ⟨b, hb, hb'⟩ := ih h
+        exact ⟨b, by simp [hb], hb'⟩
+
+theorem firstComp_all_none (T : Tables) : ∀ l : List Str,
+    (∀ a ∈ l, parseModComp T a = .ok none) → firstComp T l = .error .invalidComp := by
+  intro l
+  induction l with
+  | nil => intro _; rfl
+  | cons a r ih =>
+    intro h
+    simp only [firstComp, h a (by simp)]
+    exact ih (fun b hb => h b (by simp [hb]))
+
+theorem map_some_ok {α : Type} {e : Except Err α} {x : α} : e.map some = .ok (some x) ↔ e = .ok x := by
+  cases e with
+  | error er => simp [Except.map]
+  | ok v => simp [Except.map]
+
+theorem map_some_error {α : Type} {e : Except Err α} {er : Err} : e.map some = .error er ↔ e = .error er := by
+  cases e with
+  | error er => simp [Except.map]
+  | ok v => simp [Except.map]
+
+/-- where a value of the branch chain comes from: always a reader of the text or a vocabulary, never a default -/
+theorem massStrBody_ok_cases (T : Tables) (m : Str) (mono : Bool) (x : Mass)
+    (h : massStrBody T m mono = .ok (some x)) :
+    glycanMassProforma T m mono = .ok (some x) ∨
+    getMass T T.gno (stripPrefix pGno m) mono = .ok x ∨
+    getMass T T.xlmod (stripPrefix pXlmod m) mono = .ok x ∨
+    getMass T T.resid (stripPrefix pResid m) mono = .ok x ∨
+    getMass T T.psimod (stripPrefix pPsi m) mono = .ok x ∨
+    getMass T T.unimod (stripPrefix pUnimod m) mono = .ok x ∨
+    chemMassProforma T m mono = .ok x ∨
+    obsMassProforma m = .ok x := by
+  unfold massStrBody at h
+  simp only at h
+  split at h
+  · exact .inl h
+  split at h
+  · exact .inr (.inl (map_some_ok.1 h))
+  split at h
+  · exact .inr (.inr (.inl (map_some_ok.1 h)))
+  split at h
+  · exact .inr (.inr (.inr (.inl (map_some_ok.1 h))))
+  split at h
+  · cases h
+  split at h
+  · exact .inr (.inr (.inr (.inr (.inl (map_some_ok.1 h)))))
+  split at h
+  · exact .inr (.inr (.inr (.inr (.inr (.inl (map_some_ok.1 h))))))
+  split at h
+  · exact .inr (.inr (.inr (.inr (.inr (.inr (.inl (map_some_ok.1 h)))))))
+  split at h
+  · exact .inr (.inr (.inr (.inr (.inr (.inr (.inr (map_some_ok.1 h)))))))
+  · cases h
+
+/-! ### inside a vocabulary family -/
+
+def signed (k : Str) : Bool :=
+  match k with
+  | c :: _ => c == 43 || c == 45
+  | [] => false
+
+theorem getMass_unsigned (T : Tables) (db : List Entry) (k : Str) (mono : Bool) (hs : signed k = false) :
+    getMass T db k mono =
+      (match findEntry db k with
+       | none => .error .unknownMod
+       | some e => entryMass T e mono) := by
+  cases k with
+  | nil => rfl
+  | cons c r =>
+    simp only [signed] at hs
+    simp only [getMass, hs, Bool.false_eq_true, if_false]
+    cases findEntry db (c :: r) <;> rfl
+
+theorem getMass_signed' (T : Tables) (db : List Entry) (k : Str) (mono : Bool) (hs : signed k = true) :
+    getMass T db k mono =
+      (match parseFloat k with
+       | .val r => .ok (some r)
+       | .special => .ok none
+       | .bad => .error .invalidDeltaMass) := by
+  cases k with
+  | nil => cases hs
+  | cons c r =>
+    simp only [signed] at hs
+    simp only [getMass, hs, if_true]
+    cases parseFloat (c :: r) <;> rfl
+
+theorem getComp_unsigned (db : List Entry) (k : Str) (hs : signed k = false) :
+    getComp db k =
+      (match findEntry db k with
+       | none => .error .unknownMod
+       | some e => match e.comp with
+         | none => .error .invalidComp
+         | some c => .ok c) := by
+  cases k with
+  | nil => rfl
+  | cons c r =>
+    simp only [signed] at hs
+    simp only [getComp, hs, Bool.false_eq_true, if_false]
+    cases findEntry db (c :: r) with
+    | none => rfl
+    | some e => simp only []; cases e.comp <;> rfl
+
+theorem getComp_signed' (db : List Entry) (k : Str) (hs : signed k = true) :
+    getComp db k =
+      (match parseFloat k with
+       | .bad => .error .invalidDeltaMass
+       | _ => .error .deltaMassComp) := by
+  cases k with
+  | nil => cases hs
+  | cons c r =>
+    simp only [signed] at hs
+    simp only [getComp, hs, if_true]
+    cases parseFloat (c :: r) <;> rfl
+
 end ModDbGeneric
